@@ -452,6 +452,24 @@ class Exec:
                     sn.pc.append(self.truth(u))
                 out.append((sn, res, None))
             return out
+        # mapping.get(key[, default]) on an opaque mapping: the stored value when the key is present (the same `in` predicate
+        # the `key in mapping` test uses), otherwise the default (None without one)
+        if isinstance(f, ast.Attribute) and f.attr == 'get' and 1 <= len(args) <= 2 and not e.keywords:
+            out = []
+            for s1, vs, x in eval_args(st, [f.value] + args):
+                if x is not None: out.append((s1, None, x)); continue
+                m = vs[0].val if isinstance(vs[0], Opt) else vs[0]
+                k = vs[1].val if isinstance(vs[1], Opt) else vs[1]
+                has = self.uf('contains!%s!%s' % (m.sort(), k.sort()), m.sort(), k.sort(), z3.BoolSort())(m, k)
+                dflt = vs[2] if len(vs) > 2 else NONE
+                dv = dflt.val if isinstance(dflt, Opt) else dflt
+                rs = dv.sort() if (len(vs) > 2 and dflt is not NONE) else Obj
+                item = self.uf('getitem!%s!%s!%s' % (m.sort(), k.sort(), rs), m.sort(), k.sort(), rs)(m, k)
+                dnone = dflt.none if isinstance(dflt, Opt) else z3.BoolVal(False)
+                val = z3.If(has, item, dv) if dv.sort() == rs else item
+                out.append((s1, Opt(z3.And(z3.Not(has), dnone), val), None))
+            self.trusted.add('mapping.get(key, default) on an opaque mapping: the stored value if `key in mapping`, else the default')
+            return out
         raise ToolError('%s:%d: call of %s: not a method of the class and not a declared extern' % (self.src, e.lineno, name))
 
     def call_method(self, cls, mname, argvals, kw, st, depth=[0]):
